@@ -71,7 +71,9 @@ func geomV4(start, end string) geom {
 	sb, eb := ipToBig(s, "v4"), ipToBig(e, "v4")
 	n := int(new(big.Int).Sub(eb, sb).Int64()) + 1
 	return geom{kind: "v4", name: start + "-" + end, base: sb, bsize: big.NewInt(1), n: n, page: 32, poollen: 0,
-		mk: func() (allocators.Allocator, error) { return bitmap.NewIPv4Allocator(net.ParseIP(start), net.ParseIP(end)) }}
+		mk: func() (allocators.Allocator, error) {
+			return bitmap.NewIPv4Allocator(net.ParseIP(start), net.ParseIP(end))
+		}}
 }
 
 func geomV6(pool string, page int) geom {
